@@ -92,6 +92,7 @@ let parse_event (cfgs : config array) (tok : string) : event =
          | _ -> failwith tok in
        EServe (str_of_hex a, List.map ent (split ',' t))
      | _ -> failwith tok)
+  | "CN" -> ECensus (nat_tail tok 2)
   | "QQ" -> EQuiesce
   | _ -> failwith ("event " ^ tok)
 
@@ -155,6 +156,9 @@ let () =
          end else if crashed then begin
            incr mism;
            Printf.printf "MISMATCH crash-unpredicted %s kind=%s where=%s class=%s\n" id kind where cls
+         end else if observed = "handler-panic" then begin
+           incr mism;
+           Printf.printf "MISMATCH handler-panic %s kind=%s where=%s class=%s\n" id kind where cls
          end else if observed = "hang" || observed = "none" then begin
            incr mism;
            Printf.printf "MISMATCH %s %s kind=%s where=%s\n" observed id kind where
